@@ -303,7 +303,7 @@ func c02Units(tier string) []*Unit {
 			us = append(us, &Unit{Name: sc.Name, Sc: sc, Bound: bound, Prune: true, Check: both(c02Check(pg), c01Check(pg)), Weight: len(pg.Tasks)})
 		}
 	}
-	us = append(us, c02ExternalProcessUnit(), c02LoopScopeUnit())
+	us = append(us, c02ExternalProcessUnit(), c02LoopScopeUnit(), c02IncludedCalleeUnit(), c02IncludedOnceCalleesUnit())
 	return us
 }
 
@@ -421,4 +421,51 @@ func c02LoopScopeUnit() *Unit {
 		}
 		return out
 	}}
+}
+
+// The variables of a call reach a callee that lives in an included Taskfile (map form) which
+// declares a top-level variable of the same name.
+func c02IncludedCalleeUnit() *Unit {
+	files := map[string]string{
+		"Taskfile.yml": "version: '3'\nincludes:\n  lib:\n    taskfile: ./lib.yml\ntasks:\n  main:\n    deps:\n      - task: lib:callee\n        vars: {X: from-dep, VP: '@>main.d0'}\n    cmds:\n      - task: lib:callee\n        vars: {X: from-call, VP: '@>main.c0'}\n      - for: [one, two]\n        task: lib:callee\n        vars: {X: 'item-{{.ITEM}}', VP: '@>main.c1#{{.ITEM}}'}\n",
+		"lib.yml":      "version: '3'\nvars:\n  X: lib-default\n  Y: lib-only\ntasks:\n  callee:\n    cmds:\n      - printf '%s\\n' 'P|lib:callee|0|{{.VP}}|X={{.X}} Y={{.Y}}'\n",
+	}
+	sc := &vlab.Scenario{Name: "call-vars-into-included-taskfile/cinf", Files: files, Calls: []vlab.CallSpec{{Task: "main"}}}
+	want := map[string]string{"@>main.d0": "X=from-dep Y=lib-only", "@>main.c0": "X=from-call Y=lib-only", "@>main.c1#one": "X=item-one Y=lib-only", "@>main.c1#two": "X=item-two Y=lib-only"}
+	return &Unit{Name: sc.Name, Sc: sc, Bound: 0, Prune: false, Weight: 1, Check: func(x *vlab.Exec) []vlab.Violation {
+		out := generic("C02", x)
+		got := map[string]string{}
+		for _, e := range vlab.ParseTrace(x.Trace) {
+			if e.K == 'S' && e.Task != "" {
+				got[e.VP] = e.Extra
+			}
+		}
+		for vp, w := range want {
+			if got[vp] != w {
+				out = append(out, vlab.V("C02", "call_vars", "included_callee", fmt.Sprintf("the call at %s printed %q, the call passed %q (status %d %s)", vp, got[vp], w, x.Code, firstN(x.ErrStr, 80))))
+				break
+			}
+		}
+		return out
+	}}
+}
+
+// Two different run-once tasks of an included Taskfile whose names end in the same segment, called
+// one after the other: each call runs its own callee to the end before the caller goes on.
+func c02IncludedOnceCalleesUnit() *Unit {
+	line := func(task string, idx int, vp string) string {
+		return fmt.Sprintf("      - printf '%%s\\n' 'P|%s|%d|%s|'\n", task, idx, vp)
+	}
+	files := map[string]string{
+		"Taskfile.yml": "version: '3'\nincludes:\n  inc: ./inc.yml\ntasks:\n  main:\n    cmds:\n      - task: inc:image:build\n      - task: inc:chart:build\n" + line("main", 2, "@"),
+		"inc.yml": "version: '3'\ntasks:\n  'image:build':\n    run: once\n    cmds:\n" + line("inc:image:build", 0, "=") +
+			"  'chart:build':\n    run: once\n    cmds:\n" + line("inc:chart:build", 0, "="),
+	}
+	pg := &Prog{Tasks: []*T{
+		{Name: "main", Cmds: []C{CallS("inc:image:build", "="), CallS("inc:chart:build", "="), P()}},
+		{Name: "inc:image:build", Run: "once", Cmds: []C{P()}},
+		{Name: "inc:chart:build", Run: "once", Cmds: []C{P()}},
+	}}
+	sc := &vlab.Scenario{Name: "once-callees-in-include-same-last-segment/cinf", Files: files, Spec: pg, Calls: []vlab.CallSpec{{Task: "main", Vars: [][2]string{{"VP", "@"}}}}}
+	return &Unit{Name: sc.Name, Sc: sc, Bound: 0, Prune: false, Weight: 1, Check: c02Check(pg)}
 }
